@@ -19,62 +19,70 @@ type pools struct {
 	multis                                     map[string]bool // names declared by `var a, b = f()`
 }
 
-// forBody: what a function body may name. Variables declared by a multi-value specification are
-// excluded: inside a function they read a wrong cell (listed finding, class
-// multi-value-var-in-function; sometimes a Go panic), which the model does not predict.
-func (p *pools) forBody() *pools {
-	q := *p
-	q.ints = nil
-	for _, n := range p.ints {
-		if !p.multis[n] {
-			q.ints = append(q.ints, n)
-		}
-	}
-	return &q
-}
+// forBody: what a function body may name. Since the repair of F15-2 that is everything: the
+// variables of a multi-value specification are global symbols like the others (before, a function
+// body read a wrong cell, and the generator kept them out of function bodies).
+func (p *pools) forBody() *pools { return p }
 
 func pickS(r *rand.Rand, xs []string) string { return xs[r.Intn(len(xs))] }
 
 // genArg draws one operand over what exists so far; direct=true restricts to what the proved
 // domain contains (plain references to variables, calls of functions that reach no variable).
 func genArg(r *rand.Rand, p *pools, profile string) (argT, bool) {
+	// what needs two things to exist already is rare in the table below: draw it first now and then
+	// (references to methods are dependencies since the repair of F14)
+	switch {
+	case len(p.structs) > 0 && len(p.meths) > 0 && r.Intn(4) == 0:
+		if r.Intn(5) < 3 {
+			return argT{K: "method", V: pickS(r, p.structs), W: pickS(r, p.meths)}, true
+		}
+		return argT{K: "mexpr", V: pickS(r, p.structs), W: pickS(r, p.meths)}, true
+	case len(p.mvals) > 0 && r.Intn(5) == 0:
+		return argT{K: "callvar", V: pickS(r, p.mvals)}, true
+	case len(p.funcps) > 0 && len(p.ints) > 0 && r.Intn(6) == 0:
+		return argT{K: "callarg", V: pickS(r, p.funcps), W: pickS(r, p.ints)}, true
+	}
 	for try := 0; try < 8; try++ {
 		k := r.Intn(100)
 		switch {
-		case k < 45:
+		case k < 38:
 			if len(p.ints) > 0 {
 				return argT{K: "var", V: pickS(r, p.ints)}, true
 			}
-		case k < 57:
+		case k < 50:
 			if len(p.funcs) > 0 {
 				return argT{K: "call", V: pickS(r, p.funcs)}, true
 			}
-		case k < 64:
+		case k < 57:
 			if len(p.funcps) > 0 && len(p.ints) > 0 {
 				return argT{K: "callarg", V: pickS(r, p.funcps), W: pickS(r, p.ints)}, true
 			}
-		case k < 72:
+		case k < 65:
 			if len(p.structs) > 0 && len(p.meths) > 0 {
 				return argT{K: "method", V: pickS(r, p.structs), W: pickS(r, p.meths)}, true
 			}
-		case k < 76:
+		case k < 69:
 			if len(p.structs) > 0 && len(p.meths) > 0 {
 				return argT{K: "mexpr", V: pickS(r, p.structs), W: pickS(r, p.meths)}, true
 			}
-		case k < 80:
+		case k < 73:
 			if len(p.mvals) > 0 {
 				return argT{K: "callvar", V: pickS(r, p.mvals)}, true
 			}
-		case k < 88:
+		case k < 80:
 			if len(p.ints) > 0 {
 				return argT{K: "funclit", V: pickS(r, p.ints)}, true
 			}
-		case k < 91:
-			if profile == "all" && len(p.ints) > 0 {
+		case k < 85:
+			if profile != "direct" && len(p.ints) > 0 {
 				return argT{K: "shadow", V: pickS(r, p.ints)}, true
 			}
+		case k < 89:
+			if profile != "direct" && len(p.ints) > 0 {
+				return argT{K: "param", V: pickS(r, p.ints)}, true
+			}
 		case k < 94:
-			if profile == "all" && len(p.ints) > 0 {
+			if profile != "direct" && len(p.ints) > 0 {
 				return argT{K: "fieldkey", V: pickS(r, p.ints)}, true
 			}
 		default:
@@ -119,9 +127,14 @@ func pureArgs(r *rand.Rand, p *pools, pure map[string]bool) []argT {
 
 // genCase draws one program.
 //
-//	profile "direct": variables refer to variables directly; functions reach no variable (the proved domain; before the repair of F15 also the class `overtake`: shuffled declaration orders keep exercising it)
-//	profile "all":    every construct (dependencies through functions and methods, multi-value and paired
-//	                  declarations, variables without value, shadowing, field keys)
+//	profile "direct": variables refer to variables directly; functions reach no variable (what was the proved
+//	                  domain before the repairs of round 3; shuffled declaration orders keep exercising F15)
+//	profile "all":    every construct (dependencies through functions and methods — F14 —, multi-value and paired
+//	                  declarations — F15-1, -2, -3, -7 —, variables without value (one or two names), locals,
+//	                  parameters and field keys named like a variable — F15-4 —, several blank variables — F15-5 —,
+//	                  a blank name in a multi-value declaration)
+//	profile "names":  like "all", but mostly int variables and specifications that declare several variables
+//	                  (`var p, q = two(…)`, `var z0, z1 int`): the shapes of F15-8
 //	order   "decl":   declared in the hidden true order (no forward reference)
 //	        "shuffle": declared in a random order
 //	        "near":   true order with a few transpositions
@@ -131,7 +144,7 @@ func genCase(r *rand.Rand, profile, order string, cycle bool, size int, mode str
 	p := &pools{multis: map[string]bool{}}
 	pure := map[string]bool{}
 	var ents []entT
-	nInt, nZ, nT, nMv, nF, nG, nM, nX, nP := 0, 0, 0, 0, 0, 0, 0, 0, 0
+	nInt, nZ, nT, nMv, nF, nG, nM, nX, nP, nU := 0, 0, 0, 0, 0, 0, 0, 0, 0, 0
 	letter := func() string {
 		s := string(rune('a' + nInt%26))
 		if nInt >= 26 {
@@ -140,8 +153,34 @@ func genCase(r *rand.Rand, profile, order string, cycle bool, size int, mode str
 		nInt++
 		return s
 	}
+	if profile == "all" && r.Intn(5) == 0 {
+		// a struct variable and a method to begin with: what follows can refer to the method
+		// (method call, method expression, method value)
+		f := &funcT{Name: "m0", Meth: true, Args: []argT{}}
+		nM++
+		ents = append(ents, entT{kind: "meth", f: f})
+		p.meths = append(p.meths, "m0")
+		v := &varT{Kind: "struct", Names: []string{"t0"}, Args: [][]argT{{}}}
+		nT++
+		ents = append(ents, entT{kind: "struct", v: v})
+		p.structs = append(p.structs, "t0")
+		size += 2
+	}
 	for len(ents) < size {
 		k := r.Intn(100)
+		if profile == "names" {
+			// ints 45, functions 10, multi-value 22, no value 23 (mostly two names)
+			switch {
+			case k < 45:
+				k = 0
+			case k < 55:
+				k = 50
+			case k < 77:
+				k = 85
+			default:
+				k = 95
+			}
+		}
 		if profile == "direct" {
 			// ints 70, pure functions 15, struct 8, blank 7
 			switch {
@@ -156,12 +195,12 @@ func genCase(r *rand.Rand, profile, order string, cycle bool, size int, mode str
 			}
 		}
 		switch {
-		case k < 50: // int
+		case k < 42: // int
 			n := letter()
 			v := &varT{Kind: "int", Names: []string{n}, Args: [][]argT{genArgs(r, p, profile, 3)}}
 			ents = append(ents, entT{kind: "int", v: v})
 			p.ints = append(p.ints, n)
-		case k < 62: // func
+		case k < 53: // func
 			n := fmt.Sprintf("f%d", nF)
 			nF++
 			f := &funcT{Name: n}
@@ -173,25 +212,25 @@ func genCase(r *rand.Rand, profile, order string, cycle bool, size int, mode str
 			}
 			ents = append(ents, entT{kind: "func", f: f})
 			p.funcs = append(p.funcs, n)
-		case k < 67: // func with parameter
+		case k < 59: // func with parameter
 			n := fmt.Sprintf("g%d", nG)
 			nG++
 			f := &funcT{Name: n, Param: true, Args: genArgs(r, p.forBody(), profile, 2)}
 			ents = append(ents, entT{kind: "funcp", f: f})
 			p.funcps = append(p.funcps, n)
-		case k < 74: // method
+		case k < 68: // method
 			n := fmt.Sprintf("m%d", nM)
 			nM++
 			f := &funcT{Name: n, Meth: true, Args: genArgs(r, p.forBody(), profile, 2)}
 			ents = append(ents, entT{kind: "meth", f: f})
 			p.meths = append(p.meths, n)
-		case k < 80: // struct variable
+		case k < 77: // struct variable
 			n := fmt.Sprintf("t%d", nT)
 			nT++
 			v := &varT{Kind: "struct", Names: []string{n}, Args: [][]argT{genArgs(r, p, profile, 2)}}
 			ents = append(ents, entT{kind: "struct", v: v})
 			p.structs = append(p.structs, n)
-		case k < 84: // method value
+		case k < 83: // method value
 			if len(p.structs) == 0 || len(p.meths) == 0 {
 				continue
 			}
@@ -204,8 +243,15 @@ func genCase(r *rand.Rand, profile, order string, cycle bool, size int, mode str
 			a, b := fmt.Sprintf("p%d", nP), fmt.Sprintf("q%d", nP)
 			nP++
 			v := &varT{Kind: "multi", Names: []string{a, b}, Args: [][]argT{genArgs(r, p, profile, 2)}}
+			if r.Intn(6) == 0 {
+				// var _, q = two("u0", …): the blank name declares nothing
+				v.Names[0], v.Label = "_", fmt.Sprintf("u%d", nU)
+				nU++
+				p.ints = append(p.ints, b)
+			} else {
+				p.ints = append(p.ints, a, b)
+			}
 			ents = append(ents, entT{kind: "multi", v: v})
-			p.ints = append(p.ints, a, b)
 			p.multis[a], p.multis[b] = true, true
 		case k < 93: // paired
 			a, b := fmt.Sprintf("p%d", nP), fmt.Sprintf("q%d", nP)
@@ -217,8 +263,15 @@ func genCase(r *rand.Rand, profile, order string, cycle bool, size int, mode str
 			n := fmt.Sprintf("z%d", nZ)
 			nZ++
 			v := &varT{Kind: "novalue", Names: []string{n}}
-			ents = append(ents, entT{kind: "novalue", v: v})
 			p.ints = append(p.ints, n)
+			if r.Intn(5) < 2 || (profile == "names" && r.Intn(4) != 0) {
+				// var z0, z1 int: one specification, two variables
+				n2 := fmt.Sprintf("z%d", nZ)
+				nZ++
+				v.Names = append(v.Names, n2)
+				p.ints = append(p.ints, n2)
+			}
+			ents = append(ents, entT{kind: "novalue", v: v})
 		default: // blank
 			v := &varT{Kind: "blank", Names: []string{"_"}, Label: fmt.Sprintf("x%d", nX), Args: [][]argT{genArgs(r, p, profile, 2)}}
 			nX++
@@ -226,10 +279,10 @@ func genCase(r *rand.Rand, profile, order string, cycle bool, size int, mode str
 		}
 	}
 	if cycle {
-		// one reference against the true order: from an early int variable (or a function) to a later int variable
+		// one reference against the true order: from an early int variable (or a function, or a method) to a later int variable
 		var early []int
 		for i, e := range ents {
-			if (e.kind == "int" || (profile == "all" && e.kind == "func")) && i < len(ents)-1 {
+			if (e.kind == "int" || (profile != "direct" && (e.kind == "func" || e.kind == "meth"))) && i < len(ents)-1 {
 				early = append(early, i)
 			}
 		}
@@ -311,7 +364,7 @@ func genCase(r *rand.Rand, profile, order string, cycle bool, size int, mode str
 	if c.Vars == nil {
 		c.Vars = []varT{}
 	}
-	if profile == "all" && r.Intn(12) == 0 {
+	if profile != "direct" && r.Intn(5) == 0 {
 		c.LateTwo = true
 	}
 	if mode == "dir" && len(layout) > 0 {
@@ -327,13 +380,76 @@ func genCase(r *rand.Rand, profile, order string, cycle bool, size int, mode str
 	return c
 }
 
+// genNames draws a package around one specification that declares two variables (`var p0, q0 = two(…)`
+// or `var z0, z1 int`): two to four variables that each wait for one of the two names (sometimes
+// through a function), declared before or after it in a random order, and a few bystanders. The
+// toolchain gives each name its own node, the interpreter one node to the specification (F15-8).
+func genNames(r *rand.Rand, mode string) caseT {
+	c := caseT{Mode: mode, Funcs: []funcT{}}
+	spec := varT{Kind: "multi", Names: []string{"p0", "q0"}, Args: [][]argT{{}}}
+	if r.Intn(2) == 0 {
+		spec = varT{Kind: "novalue", Names: []string{"z0", "z1"}}
+	}
+	type item struct {
+		v *varT
+		f *funcT
+	}
+	items := []item{{v: &spec}}
+	n := 2 + r.Intn(3)
+	for i := 0; i < n; i++ {
+		name := string(rune('a' + i))
+		target := spec.Names[r.Intn(2)]
+		v := &varT{Kind: "int", Names: []string{name}, Args: [][]argT{{}}}
+		switch r.Intn(4) {
+		case 0: // through a function
+			fn := fmt.Sprintf("f%d", len(c.Funcs))
+			f := &funcT{Name: fn, Args: []argT{{K: "var", V: target}}}
+			items = append(items, item{f: f})
+			c.Funcs = append(c.Funcs, *f)
+			v.Args[0] = append(v.Args[0], argT{K: "call", V: fn})
+		case 1:
+			v.Args[0] = append(v.Args[0], argT{K: "funclit", V: target})
+		default:
+			v.Args[0] = append(v.Args[0], argT{K: "var", V: target})
+		}
+		if i > 0 && r.Intn(3) == 0 {
+			v.Args[0] = append(v.Args[0], argT{K: "var", V: string(rune('a' + r.Intn(i)))})
+		}
+		items = append(items, item{v: v})
+	}
+	if r.Intn(2) == 0 {
+		items = append(items, item{v: &varT{Kind: "int", Names: []string{"k"}, Args: [][]argT{{}}}})
+	}
+	r.Shuffle(len(items), func(i, j int) { items[i], items[j] = items[j], items[i] })
+	c.Funcs = []funcT{}
+	for _, it := range items {
+		if it.v != nil {
+			c.Layout = append(c.Layout, fmt.Sprintf("v%d", len(c.Vars)))
+			c.Vars = append(c.Vars, *it.v)
+		} else {
+			c.Layout = append(c.Layout, fmt.Sprintf("f%d", len(c.Funcs)))
+			c.Funcs = append(c.Funcs, *it.f)
+		}
+	}
+	c.Inits = r.Intn(2)
+	for i := 0; i < c.Inits; i++ {
+		c.Layout = append(c.Layout, fmt.Sprintf("i%d", i))
+	}
+	if mode == "dir" {
+		k := r.Intn(len(c.Layout) + 1)
+		c.Files = []int{k, len(c.Layout) - k}
+	}
+	if spec.Kind == "multi" && r.Intn(4) == 0 {
+		c.LateTwo = true
+	}
+	return c
+}
+
 // genProg wraps a main package with 1–4 imported packages forming a DAG; every imported package is
 // a small "direct" package plus `var X = lg("<path>.X", own variables…, X of its imports…)`.
 func genProg(r *rand.Rand, main caseT) caseT {
-	// gta stops at a multi-value declaration whose callee is declared later; whether an import
-	// declared in another file has already been processed then depends on the file order, which
-	// the model does not describe: that class is exercised on single packages only
-	main.LateTwo = false
+	// (before the repair of F15-7 a multi-value declaration whose callee is declared later stopped
+	// gta, and the generator kept that shape out of programs with several packages)
 	names := []string{"liba", "libb", "libc", "libd", "libe"}
 	r.Shuffle(len(names), func(i, j int) { names[i], names[j] = names[j], names[i] })
 	n := 1 + r.Intn(4)
@@ -399,11 +515,14 @@ func generate(r *rand.Rand, thorough bool) []caseT {
 	var out []caseT
 	for i := 0; i < n; i++ {
 		profile := "direct"
-		if r.Intn(100) < 45 {
+		switch k := r.Intn(100); {
+		case k < 57:
 			profile = "all"
+		case k < 65:
+			profile = "names"
 		}
 		order := []string{"shuffle", "shuffle", "near", "near", "decl"}[r.Intn(5)]
-		cycle := r.Intn(100) < 10
+		cycle := r.Intn(100) < 15
 		size := 2 + r.Intn(7)
 		if thorough && r.Intn(4) == 0 {
 			size = 6 + r.Intn(9)
@@ -413,6 +532,9 @@ func generate(r *rand.Rand, thorough bool) []caseT {
 			mode = "dir"
 		}
 		c := genCase(r, profile, order, cycle, size, mode)
+		if r.Intn(100) < 5 {
+			c = genNames(r, mode)
+		}
 		if r.Intn(100) < 20 {
 			c = genProg(r, c)
 		}
